@@ -390,12 +390,86 @@ def r11_5(ctx):
         ctx.ok("R11.5", where(fi), "RENAME INBOX: each message is added to the new mailbox before it is removed from the inbox")
 
 
+RESET_FIELDS = ("self.msg_keys", "self.uids", "self.num_msgs", "self.num_recent", "self.sequences", "self.mtime")
+
+
+def r11_6(ctx):
+    """Recovery after a kill.  When the resync finds a folder that no longer fits what the database remembers (fewer files than
+    known keys; key and UID lists of different lengths) it treats the mailbox as new: *all* per-message state is dropped
+    together - keys, UIDs, counts and the flag sets, which are indexed by those keys.  A reset that keeps the flag sets leaves
+    keys of vanished messages in them: they are written back to .mh_sequences and the database, EXPUNGE trips over them, and
+    the next message that re-uses such a key is born with the dead message's flags (\\Deleted included).  The two reset blocks
+    are siblings: they assign the same fields."""
+    p = ctx.p
+    fi = p.func("mbox.Mailbox.check_new_msgs_and_flags")
+    ctx.analysed(fi)
+    blocks = []
+    for n in body_walk(fi.node):
+        for fld in ("body", "orelse"):
+            lst = getattr(n, fld, None)
+            if isinstance(lst, list) and any(isinstance(s, ast.Assign) and norm(s.targets[0]) == "self.uids" and isinstance(s.value, ast.List) and not s.value.elts for s in lst):
+                blocks.append(lst)
+    ctx.floor("R11.6", len(blocks), 2, "`treat as a new mailbox` reset blocks in the resync")
+    for lst in blocks:
+        got = {norm(t) for s in lst if isinstance(s, ast.Assign) for t in s.targets}
+        # a reset moved into a helper that was folded back by asv/inline.py is seen here as its statements
+        missing = [f for f in RESET_FIELDS if f not in got]
+        if missing:
+            ctx.bad("R11.6", fi.module, fi.qual, f"reset block without {missing[0]}", f"a `treat as a new mailbox` reset drops the key and UID lists but keeps `{missing[0]}`: state indexed by the dropped keys survives the recovery (flag sets keep keys of messages that no longer exist; the next message that re-uses the key inherits them)", lst[0].lineno)
+        else:
+            seqs = [s for s in lst if isinstance(s, ast.Assign) and norm(s.targets[0]) == "self.sequences"]
+            fresh = seqs and isinstance(seqs[0].value, ast.Call) and call_name(seqs[0].value) in ("defaultdict", "dict") or (seqs and isinstance(seqs[0].value, ast.Dict) and not seqs[0].value.keys)
+            if fresh:
+                ctx.ok("R11.6", where(fi), f"reset block @{lst[0].lineno} drops keys, UIDs, counts and flag sets together")
+            else:
+                ctx.bad("R11.6", fi.module, fi.qual, norm(seqs[0]), "the reset assigns the flag sets from something other than a fresh empty map", seqs[0].lineno)
+
+
+def r11_7(ctx):
+    """Rows that are found *through* another table are deleted before the rows they are found through: `DELETE FROM sequences
+    WHERE mailbox_id IN (SELECT id FROM mailboxes WHERE name=?)` after `DELETE FROM mailboxes WHERE name=?` finds nothing, the
+    flag rows stay as orphans, and the next mailbox that gets the same row id inherits them (or its first commit fails on the
+    unique index)."""
+    import re as _re
+
+    p = ctx.p
+    n = 0
+    for fi in list(p.funcs_in("user_server")) + list(p.funcs_in("mbox")) + list(p.funcs_in("db")):
+        ex = []
+        for c in calls_in(fi.node):
+            if call_name(c) == "execute" and c.args:
+                sql = c.args[0]
+                txt = " ".join(str(sql.value).split()).lower() if isinstance(sql, ast.Constant) and isinstance(sql.value, str) else None
+                if txt:
+                    ex.append((c, txt))
+        dels = [(c, t, _re.match(r"delete from (\w+)", t).group(1)) for c, t in ex if _re.match(r"delete from (\w+)", t)]
+        for c, t, table in dels:
+            sub_tables = set(_re.findall(r"\(\s*select .*? from (\w+)", t))
+            for other in sub_tables - {table}:
+                n += 1
+                ctx.analysed(fi)
+                g = ctx.cfg(fi)
+                def _node_of(call):
+                    return [x.id for x in g.nodes if x.ast is not None and x.kind == "stmt" and any(y is call for y in ast.walk(x.ast))]
+
+                me = _node_of(c)
+                ctx.require(me, f"{fi.qual}: CFG node of the DELETE not found")
+                earlier = [c2 for c2, t2, tb2 in dels if tb2 == other and c2 is not c and any(me[0] in flow.reach(g, [y], flow.NORMAL) and y != me[0] for y in _node_of(c2))]
+                if earlier:
+                    ctx.bad("R11.7", fi.module, fi.qual, f"DELETE FROM {other} ... before DELETE FROM {table} ... (SELECT ... FROM {other})", f"the rows of `{table}` are looked up through `{other}` after the `{other}` row has been deleted: the sub-select finds nothing, the `{table}` rows stay behind as orphans and are inherited by the next row that re-uses the id", c.lineno)
+                else:
+                    ctx.ok("R11.7", where(fi), f"`{table}` rows found through `{other}` are deleted while the `{other}` row still exists")
+    ctx.floor("R11.7", n, 1, "DELETEs that select their rows through another table")
+
+
 def run(ctx):
     ctx.do(r11_1)
     ctx.do(r11_2)
     ctx.do(r11_3)
     ctx.do(r11_4)
     ctx.do(r11_5)
+    ctx.do(r11_6)
+    ctx.do(r11_7)
     from . import c02
     ctx.do(c02.r2_1)
     ctx.do(c02.r2_4)
